@@ -704,9 +704,66 @@ class _Inliner:
             return pre  # a helper called for its effects only
         return pre + [st]
 
+    def expr_inline(self, tree):
+        """Helpers whose body is a single `return E` are substituted as expressions wherever they are called with plain
+        arguments (names, constants, attributes) - also inside lambdas and comprehensions, where no statement can be
+        placed."""
+        inl = self
+
+        def plain(a):
+            return isinstance(a, (ast.Name, ast.Constant)) or (isinstance(a, ast.Attribute) and plain(a.value))
+
+        class T(ast.NodeTransformer):
+            def visit_Call(self, node):
+                self.generic_visit(node)
+                f = inl._call_of(node)
+                if f is None:
+                    return node
+                body = [s_ for s_ in f.body if not (isinstance(s_, ast.Expr) and isinstance(s_.value, ast.Constant) and isinstance(s_.value.value, str))]
+                if len(body) != 1 or not isinstance(body[0], ast.Return) or body[0].value is None:
+                    return node
+                is_method = inl.helpers[f.name][1]
+                params = [a.arg for a in f.args.args]
+                bound = {}
+                if is_method:
+                    bound[params[0]] = node.func.value
+                    params = params[1:]
+                for p_, a in zip(params, node.args):
+                    bound[p_] = a
+                for k in node.keywords:
+                    bound[k.arg] = k.value
+                defaults = dict(zip([a.arg for a in f.args.args][len(f.args.args) - len(f.args.defaults):], f.args.defaults))
+                for p_ in params:
+                    if p_ not in bound:
+                        if p_ not in defaults:
+                            return node
+                        bound[p_] = defaults[p_]
+                if not all(plain(v) for v in bound.values()):
+                    return node
+                e = copy.deepcopy(body[0].value)
+                if any(isinstance(n, (ast.Lambda, ast.NamedExpr, ast.Yield, ast.YieldFrom, ast.Await)) for n in ast.walk(e)):
+                    return node
+
+                class Sub(ast.NodeTransformer):
+                    def visit_Name(self, n):
+                        if n.id in bound and isinstance(n.ctx, ast.Load):
+                            return loc(copy.deepcopy(bound[n.id]), node)
+                        return n
+
+                e = Sub().visit(e)
+                for n in ast.walk(e):
+                    ast.copy_location(n, node)
+                return e
+
+        for node in ast.walk(tree):
+            if isinstance(node, (ast.FunctionDef, ast.AsyncFunctionDef)) and not (node.name in self.helpers and self.helpers[node.name][0] is node):
+                node.body = [T().visit(s_) for s_ in node.body]
+        return tree
+
     def run(self, tree):
         if not self.collect(tree):
             return tree
+        tree = self.expr_inline(tree)
         for node in ast.walk(tree):
             if isinstance(node, (ast.FunctionDef, ast.AsyncFunctionDef)) and node.name not in self.helpers:
                 node.body = self.block(node.body) or [ast.Pass()]
